@@ -19,6 +19,7 @@ import (
 	"runtime/debug"
 	"strings"
 	"testing"
+	"time"
 
 	"golang.org/x/net/internal/verifrt"
 	"golang.org/x/net/internal/verifrt/hpackref"
@@ -701,6 +702,9 @@ func v33Fields(fs []qpackref.Field) string {
 
 // ---------- the monitor ----------
 
+// v33StuckLimit: see vqsWatch. A whole batch of 100 payloads takes about a second.
+const v33StuckLimit = 150 * time.Second
+
 func TestVerif_C33(t *testing.T) {
 	r := verifrt.Start(t, "C33")
 	defer r.Finish()
@@ -801,10 +805,13 @@ func TestVerif_C33(t *testing.T) {
 	const batch = 100
 	var sampled int
 	r.CasesParallel("roundtrip", r.N(100, 1000), 8, func(c *verifrt.Case) {
+		var prog vqsProgress
+		defer vqsWatch(r, c, &prog, v33StuckLimit)()
 		inner, outer := vqsBubble(t, func(t *testing.T) {
 			p := vqsNewPair(t)
 			for k := 0; k < batch; k++ {
 				l := v33GenList(c.Rng)
+				prog.step(fmt.Sprintf("roundtrip sub %d list=%s", k, v33Ins(l.In)))
 				desc := map[string]any{"sub": k, "list": l.In}
 				got := enc.encode(func(f func(itype indexType, name, value string)) {
 					for _, in := range l.In {
@@ -930,6 +937,8 @@ func TestVerif_C33(t *testing.T) {
 	// --- hostile ---
 	var hsampled int
 	r.CasesParallel("hostile", r.N(400, 4000), 8, func(c *verifrt.Case) {
+		var prog vqsProgress
+		defer vqsWatch(r, c, &prog, v33StuckLimit)()
 		inner, outer := vqsBubble(t, func(t *testing.T) {
 			p := vqsNewPair(t)
 			for k := 0; k < batch; k++ {
@@ -938,6 +947,7 @@ func TestVerif_C33(t *testing.T) {
 				if !m.Trailing && c.Rng.IntN(15) == 0 {
 					m.Longer = 1 + c.Rng.IntN(4)
 				}
+				prog.step(fmt.Sprintf("hostile sub %d strategy=%s mode=%+v payload=%s", k, label, m, v33Hex(payload)))
 				ref := qpackref.Decode(payload)
 				out := v33Decode(t, p, payload, m)
 				desc := map[string]any{"sub": k, "strategy": label, "payload": v33Hex(payload), "mode": m, "reference": map[string]any{"reject": ref.Reject, "at": ref.RejectAt, "mayReject": ref.MayReject, "negativeBase": ref.NegativeBase}}
